@@ -133,6 +133,75 @@ class Merged:
         self.dig = 0
 
 
+def _empty_result(idx, error):
+    return {"idx": idx, "counters": {}, "states": set(), "nontrivial": set(), "outcomes": set(), "violations": [], "nviol": 0, "samples": [],
+            "payload": None, "dig": 0, "error": error}
+
+
+def _child(conn, job):
+    try:
+        r = run_one(*job)
+    except BaseException as e:  # noqa  (run_one reports exceptions of the unit itself; this is the last line of defence)
+        r = _empty_result(job[1], "worker failed outside the unit: " + "".join(traceback.format_exception_only(type(e), e)))
+    try:
+        conn.send(r)
+    finally:
+        conn.close()
+
+
+def _run_forked(jobs, procs):
+    """One fresh forked process per unit (state leaking between units - a module-level cache in the code under test or in the
+    harness - cannot make a result depend on which units a worker ran before), scheduled by hand: every child reports through
+    its own pipe, a child that dies without a result or overruns its deadline becomes a harness error instead of a hang
+    (multiprocessing.Pool waits forever for the result of a worker that was killed)."""
+    import collections
+    import time
+    from multiprocessing.connection import wait
+
+    ctx = mp.get_context("fork")
+    early = os.environ.get("VERIF_FIRST_VIOLATION") == "1"   # screening mode (mutation runs): stop at the first violation
+    pending = collections.deque(jobs)
+    running = {}
+    results = []
+    retried = set()
+    stop = False
+    while (pending and not stop) or running:
+        while pending and not stop and len(running) < procs:
+            job = pending.popleft()
+            parent_end, child_end = ctx.Pipe(duplex=False)
+            proc = ctx.Process(target=_child, args=(child_end, job), daemon=True)
+            proc.start()
+            child_end.close()
+            running[parent_end] = (proc, job, time.time())
+        for conn in wait(list(running), timeout=1.0):
+            proc, job, _ = running.pop(conn)
+            try:
+                r = conn.recv()
+            except (EOFError, OSError):
+                proc.join(5)
+                if job[1] not in retried and not stop:     # killed from outside (out of memory, an operator): run the unit once more
+                    retried.add(job[1])
+                    pending.append(job)
+                    conn.close()
+                    continue
+                r = _empty_result(job[1], f"the worker process of unit {job[1]} ended without a result, twice (exit code {proc.exitcode})")
+            conn.close()
+            proc.join(30)
+            results.append(r)
+            if early and r["violations"]:
+                stop = True
+        now = time.time()
+        for conn, (proc, job, t0) in list(running.items()):
+            if stop or now - t0 > job[3] + 120:      # the in-process watchdog (SIGALRM after job[3] seconds) should have fired long before
+                proc.kill()
+                proc.join(5)
+                conn.close()
+                del running[conn]
+                if not stop:
+                    results.append(_empty_result(job[1], f"unit {job[1]} overran its deadline of {job[3]}s by more than 120s and was killed"))
+    return results
+
+
 def run_units(modname, units, timeout=600, procs=None, seed=0):
     """Run all units; the result does not depend on scheduling."""
     procs = procs or int(os.environ.get("VERIF_PROCS", "0")) or min(16, os.cpu_count() or 1)
@@ -146,16 +215,7 @@ def run_units(modname, units, timeout=600, procs=None, seed=0):
         for j in jobs:
             results.append(run_one(*j))
     else:
-        ctx = mp.get_context("fork")
-        # one fresh (forked) process per unit: state leaking between units (a module-level cache in the code under test,
-        # or in the harness) cannot make a result depend on which units a worker happened to run before
-        with ctx.Pool(min(procs, len(jobs)), maxtasksperchild=1) as pool:
-            early = os.environ.get("VERIF_FIRST_VIOLATION") == "1"   # screening mode (mutation runs): stop at the first violation
-            for r in pool.imap_unordered(_worker, jobs, chunksize=1):
-                results.append(r)
-                if early and r["violations"]:
-                    pool.terminate()
-                    break
+        results = _run_forked(jobs, min(procs, len(jobs)))
     results.sort(key=lambda r: r["idx"])
     m = Merged()
     for r in results:
